@@ -11,8 +11,8 @@ for pid in ids:
     if not os.path.exists(p):
         continue
     d = json.load(open(p))
-    if d.get("disabled"):
-        continue
+    if d.get("disabled") or not d.get("ready"):
+        continue   # "ready": true is set by the coordinator once the check is integrated and green
     claimed.add(pid)
     checks.append({
         "property_id": pid,
